@@ -80,7 +80,7 @@ ASSUME = [
 def native_coverage(prop, res, sig):
     st = res.stats
     cov = {
-        "evaluations": int(st.get("ops", 0)),
+        "evaluations": int(st.get("ops", 0)) + int(st.get("inner_evals", 0)),
         "distinct_nontrivial": int(sig["nontrivial"]) if sig else int(res.nontrivial_sig_sum),
         "rule": RULE[prop],
         "samples": res.samples[:3],
@@ -179,7 +179,10 @@ def run_property(prop, tier, seed):
     total = max(64, int(total * scale))
     determinism_probe(exe, prop, seed)
     chunk = max(500, min(50_000, total // (D.NCPU * 6)))
-    res = D.run_workers(exe, prop, seed, total, chunk, timeout_per_chunk=900)
+    extra = None
+    if prop == "C13":
+        extra = ["--cost-max-log2", "16" if tier == "quick" else "20"]
+    res = D.run_workers(exe, prop, seed, total, chunk, timeout_per_chunk=900, extra_args=extra)
     sig = D.distinct_sigs(exe, res.sig_files)
     cov = native_coverage(prop, res, sig)
     D.cleanup_outs(res)
